@@ -72,3 +72,5 @@ def extra_checks():
     requested / frame) is an obligation of this property as well.  Evaluated lazily by the runner (C01 imports this module's checks)."""
     from . import C01
     return [c for c in C01.CHECKS if c.name == "backward"]
+
+ASSUMPTIONS = ["C06: inputs / parameters that are NON-LEAF tensors retaining grad are outside the discharged obligations: the trusted contract 'torch.autograd.grad writes no .grad field' is false for them (autograd's retain_grad hook fills their .grad during the sweep) - known finding C06.retained_input, reproduced by the bounded arm on every run"]
